@@ -916,6 +916,36 @@ def job_simulate(job):
     program.loop_guard = GuardProxy(program.loop_guard)
     saved = (pyrandom.choices, pyrandom.choice, bern_mod.bernoulli)
     pyrandom.choices, pyrandom.choice, bern_mod.bernoulli = choices, choice, BernStub
+    if job.get("fake_z") is not None:
+        # continuous samplers: numpy's primitive generators return the constant z, so that every scipy draw
+        # loc + scale * primitive reveals the location and scale the sampler was really called with
+        import numpy as np
+        import numpy.random.mtrand as mt
+        import scipy.stats as st
+        zval = float(sympy.Rational(job["fake_z"]))
+
+        class FakeRS(np.random.RandomState):
+            def _c(self, v, size):
+                return np.full(size, v) if size is not None else v
+
+            def standard_normal(self, size=None):
+                return self._c(zval, size)
+
+            def uniform(self, low=0.0, high=1.0, size=None):
+                return self._c(low + (high - low) * zval, size)
+
+            def standard_exponential(self, size=None):
+                return self._c(zval, size)
+
+            def laplace(self, loc=0.0, scale=1.0, size=None):
+                return self._c(loc + scale * zval, size)
+
+            def standard_gamma(self, shape, size=None):
+                return self._c(zval, size)
+        fake = FakeRS(0)
+        mt._rand = fake
+        for dname in ("norm", "uniform", "expon", "laplace", "gamma"):
+            getattr(st, dname).random_state = fake
     runs = []
     complete = True
     if job.get("one_call"):
